@@ -583,6 +583,9 @@ fn c13(run: &'static Run) -> i32 {
     let (a, b) = crate::bbchk::c13(run);
     s += a;
     t += b;
+    let (a, b) = crate::ucichk::setoption_under_schedules(run);
+    s += a;
+    t += b;
     run.assume("the option ranges are parsed from the engine's own `uci` answer, so a changed advertisement changes the enumeration");
     report::finish(run, s, t, "every advertised spin option x the values listed in coverage.families: setoption accepted, isready answered, option value taken, go depth 3 answered by exactly one legal bestmove; the search thread must neither die nor hang", true)
 }
